@@ -170,7 +170,7 @@ class AbstractTreeName(AbstractNameDefinition):
             trailer = par.parent
             if trailer.type == 'arglist':
                 trailer = trailer.parent
-            if trailer.type != 'classdef':
+            if trailer.type in ('trailer', 'decorator'):
                 if trailer.type == 'decorator':
                     value_set = context.infer_node(trailer.children[1])
                 else:
